@@ -67,7 +67,7 @@ _number_types = frozenset((int, float))
 
 def _name_from_hex_string(encoded_name):
     bin_str = unhexlify(encoded_name)
-    return bin_str.decode('ascii')
+    return bin_str.decode('utf-8')
 
 
 def trim_if_startswith(s, prefix):
